@@ -175,13 +175,17 @@ func discharge(u *Unit, o *Obligation, cfg *solveCfg, idx int) {
 		}
 		qf := file + ".qf.smt2"
 		os.WriteFile(qf, []byte(sb.String()), 0o644)
-		r := runSolver("z3-new", qf, cfg.slowT)
+		r := runSolver("z3-new", qf, cfg.quickT)
 		o.Secs += r.secs
 		if r.status == "sat" || r.status == "unsat" {
 			o.Result = r.status
 			o.Solver = "z3-new(quantifier-free part)"
 			return
 		}
+		// undecided vacuity guards are not failures; they are reported as undecided
+		o.Result = "unknown"
+		o.Solver = "z3-new(quantifier-free part)"
+		return
 	}
 	if record(runSolver("z3-new", file, cfg.quickT)) {
 		return
